@@ -295,6 +295,10 @@ func master(ck Check, tier string, seed int64, only string) int {
 			if w := time.Now().Add(budget); w.After(dl) {
 				dl = w
 			}
+			// ... but the whole check never takes more than twice its budget
+			if hard := start.Add(2 * budget); dl.After(hard) {
+				dl = hard
+			}
 			n := j.part.Shards
 			if n <= 0 {
 				n = 1
